@@ -59,6 +59,7 @@ type Outcome struct {
 	States      int
 	Transitions int
 	Machines    int
+	More        []Outcome // further deviating automata for the same pattern
 }
 
 func safely(f func()) (p any) {
@@ -145,33 +146,36 @@ func CheckTree(t *regexref.Expr, routes Routes) Outcome {
 		out.OK = true
 		return out
 	}
-	// Which machines deviate from the reference on the witness?
-	dev := ""
-	for i, v := range res.Verdicts[1:] {
-		if v != res.Verdicts[0] {
-			dev += " " + names[i]
-		}
-	}
-	msg := fmt.Sprintf("string %s: reference accepts=%v, deviating:%s", dfaops.Quote(res.Witness), res.Verdicts[0], dev)
-	// Known-finding predicate "nul-epsilon": the pattern contains a class holding rune 0 and every deviating
-	// automaton accepts exactly the language in which each such class may also match the empty string.
+	// Classify every deviating machine on its own (pairwise with the reference).
+	// Known-finding predicate "nul-epsilon": the pattern contains a class holding rune 0 and the deviating
+	// automaton (NFA-based routes only) accepts exactly the language in which each such class may also match
+	// the empty string. Anything else is unexplained.
+	var c2 *regexref.Ctx
+	var alt *regexref.Re
 	if t.HasNulClass() {
-		c2 := regexref.NewCtx()
-		alt := t.Lang(c2, true)
-		explained := true
-		for _, m := range impl {
-			r1 := dfaops.Compare([]dfaops.Machine{c.Machine(ref), m}, alpha, 0)
-			if r1.Equal {
-				continue
-			}
-			r2 := dfaops.Compare([]dfaops.Machine{c2.Machine(alt), m}, alpha, 0)
-			if !r2.Equal {
-				explained = false
+		c2 = regexref.NewCtx()
+		alt = t.Lang(c2, true)
+	}
+	out.OK = false
+	first := true
+	for i, m := range impl {
+		r1 := dfaops.Compare([]dfaops.Machine{c.Machine(ref), m}, alpha, 0)
+		if r1.Equal {
+			continue
+		}
+		class := ""
+		if alt != nil && names[i] != "ast.ToDFA" {
+			if r2 := dfaops.Compare([]dfaops.Machine{c2.Machine(alt), m}, alpha, 0); r2.Equal {
+				class = "nul-epsilon"
 			}
 		}
-		if explained {
-			return fail("nul-epsilon", "%s", msg)
+		msg := fmt.Sprintf("pattern %q: %s and the reference disagree on %s (reference accepts=%v)", text, names[i], dfaops.Quote(r1.Witness), r1.Verdicts[0])
+		if first {
+			out.Class, out.Msg = class, msg
+			first = false
+		} else {
+			out.More = append(out.More, Outcome{Text: text, Class: class, Msg: msg})
 		}
 	}
-	return fail("", "%s", msg)
+	return out
 }
